@@ -133,6 +133,8 @@ class SymEval:
             return None
         if path.startswith('core::panicking') or path.startswith('core::panic'):
             return None
+        if 'IntoIterator' in path or 'Iterator>::next' in path:
+            return None   # modelled iterator protocol over literal arrays
         ga = json.dumps(rargs, sort_keys=True) if rargs else ''
         body = self.prog.bodies.get(path)
         has_mut = any(isinstance(a, ARef) and a.mut for a in args)
